@@ -111,6 +111,8 @@ class Path:
         p.nfresh = self.nfresh
         p.trace = list(self.trace)
         p.visits = dict(self.visits)
+        if hasattr(self, 'entry'):
+            p.entry = self.entry
         return p
 
     def fresh(self, what):
